@@ -24,8 +24,8 @@ from ..models import fmt as FM
 
 ID = "C15"
 LEVEL = "exploration"
-TIERS = {"quick": {"shards": 16, "budget_s": 30, "runs": 12, "subprocess_runs": 4, "formatter_values": 4000},
-         "thorough": {"shards": 16, "budget_s": 480, "runs": 450, "subprocess_runs": 64, "formatter_values": 150000}}
+TIERS = {"quick": {"shards": 16, "budget_s": 30, "runs": 40, "subprocess_runs": 4, "formatter_values": 4000},
+         "thorough": {"shards": 16, "budget_s": 480, "runs": 1500, "subprocess_runs": 64, "formatter_values": 150000}}
 RULE = ("auditok.cmdline.main(argv) run in-process (its sleep shortened; no other thread alive, as main requires) and as real "
         "`python -m auditok.cmdline` child processes, on generated 8/16-bit mono/stereo/3-channel recordings given as raw file, "
         "wav file or standard input, with random subsets and values of -n -m -s -a -e -d -R -u -M -r -c -w -f -L --printf "
@@ -102,10 +102,15 @@ def make_recording(rng):
     eff_thr = DEFAULTS["e"] if thr is None else thr
     pattern = []
     total = rng.choice((30, 80, 200))
+    long_burst = rng.random() < 0.15
     while len(pattern) < total:
-        pattern += [1] * rng.choice((1, 2, 5, 15, 25, 60)) + [0] * rng.choice((1, 3, 10, 29, 30, 31, 40))
+        pattern += [1] * rng.choice((1, 2, 5, 15, 19, 20, 21, 25, 60)) + [0] * rng.choice((1, 3, 10, 29, 30, 31, 40))
+        if long_burst:
+            # longer than the documented default -m 5 (500 default windows)
+            pattern += [1] * rng.choice((499, 500, 501, 510)) + [0] * 35
+            long_burst = False
     uc = rng.choice((None, None, "mix", "avg", 0, channels - 1, -1)) if channels > 1 else rng.choice((None, None, 0))
-    data, _ = A.synth(random.Random(rng.getrandbits(32)), pattern, width, channels, block, eff_thr, uc, margin=3.0)
+    data, _ = A.synth(random.Random(rng.getrandbits(32)), pattern, width, channels, block, eff_thr, uc, margin=1.0)
     return dict(rate=rate, width=width, channels=channels, a=a, e=thr, uc=uc, data=data)
 
 
@@ -157,12 +162,16 @@ def build_argv(rng, rec, tmp, idx, allow_files=True, in_process=True):
         kw["use_channel"] = rec["uc"]
     win = kw["analysis_window"]
     if rng.random() < 0.6:
-        n = rng.choice((1, 2, 5, 15)) * win
+        n = rng.choice((1, 2, 5, 15, 15, 120)) * win
         argv += [rng.choice(("-n", "--min-duration")), repr(n)]
         kw["min_dur"] = n
     if rng.random() < 0.6:
-        m = max(kw["min_dur"], rng.choice((5, 15, 25, 100)) * win)
+        m = max(kw["min_dur"], rng.choice((5, 15, 25, 100, 300)) * win)
         argv += [rng.choice(("-m", "--max-duration")), repr(m)]
+        kw["max_dur"] = m
+    if kw["min_dur"] > kw["max_dur"]:  # keep the tuple valid: an invalid one is a user error, not the tool's
+        m = kw["min_dur"] + rng.choice((0, 5)) * win
+        argv += ["-m", repr(m)]
         kw["max_dur"] = m
     if rng.random() < 0.6 or kw["max_silence"] >= kw["max_dur"]:
         s = rng.choice((0, 1, 3, 29, 30)) * win
